@@ -87,6 +87,15 @@ Proof. exact loop_a1. Qed.
 Theorem C05_state_change_requests_cycle : EVERY_STATE_CHANGE_REQUESTS_CYCLE = true.
 Proof. reflexivity. Qed.
 
+(* Helper code the model relies on, regenerated: the management job sleeps a positive time after every cycle
+   (constants.py; the "job sleeps" fact of the event-loop machine), and a user nobody told us about is UNKNOWN and
+   not privileged (User dataclass defaults = default_user of the model).  102 further helper functions and classes
+   (BackgroundTask, EventBus, the user manager's status / privilege handlers, settings sub-models, state lock
+   wrapper, message classes, Network.send_peer_messages ...) are pinned by fingerprint in the translator. *)
+Theorem C05_helpers : (0 < MGMT_MIN_MS <= MGMT_MAX_MS)%Z /\
+  status_code (ust default_user) = DEFAULT_USER_STATUS /\ upriv default_user = DEFAULT_USER_PRIVILEGED /\ 0 < HELPERS_PINNED.
+Proof. vm_compute. repeat split; try discriminate; lia. Qed.
+
 (* Without A1 the invariant is false of the model (two cycles before the first task ran). *)
 Theorem C05_slots_inv_without_A1_refuted : exists evs,
   let s' := run (init 1) evs in
